@@ -127,6 +127,7 @@ Proof.
     + apply lmsg_sent; auto.
     + intro R. fold s. destruct Hr as [Hr|Hr]; [repeat split; congruence|congruence].
     + exact Hmi.
+    + apply incl_appl, incl_refl.
   - split; cbn; auto.
 Qed.
 
@@ -149,6 +150,7 @@ Proof.
     + intros; auto.
     + cbn. discriminate.
     + intro R. cbn in R. discriminate.
+    + apply incl_refl.
   - split; cbn; auto. rewrite app_nil_r; auto.
 Qed.
 
@@ -226,13 +228,13 @@ Proof.
       destruct (append_entries (log s1) (commit s1) es) as [lg|] eqn:Ea; [|discriminate].
       assert (exists sF, s' = sF /\ log sF = lg /\ term sF = term s1 /\ voted_for sF = voted_for s1 /\
                          votes sF = votes s1 /\ (rrole sF = rrole s1 \/ rrole sF = Follower) /\
-                         rrole sF <> Leader /\ o = [(from, aer sF true (pli + len es))] /\
+                         rrole sF = Follower /\ o = [(from, aer sF true (pli + len es))] /\
                          commit sF = (if commit s1 <? N.min lc (pli + len es) then N.min lc (pli + len es) else commit s1))
         as (sF & -> & F1 & F2 & F3 & F4 & F5 & F6 & -> & F7).
       { inversion H; subst s' o; clear H.
         match goal with |- exists sF, (if ?c then ?a else ?b) = sF /\ _ => exists (if c then a else b) end.
         split; auto. destruct (_ <? _); cbn; repeat split; auto;
-          try (destruct (rrole s1); auto; fail); destruct (rrole s1); congruence. }
+          try (destruct (rrole s1); auto; fail); destruct (rrole s1); auto; congruence. }
       eexists. split.
       * apply leffs_one.
         eapply (LRecv n y1 m sF [(from, aer sF true (pli + len es))] from leader pli plt es lc (commit s1));
@@ -391,7 +393,7 @@ Proof.
     match type of H with (if ?c then _ else _) = _ => destruct c eqn:Lt end; [discriminate|].
     destruct (heartbeat_msgs me s r) as [o'|] eqn:E; [|discriminate].
     inversion H; subst o; clear H. destruct Hin as [Hx|Hx]; [|eapply IH; eauto].
-    inversion Hx; subst to r0; clear Hx. right.
+    inversion Hx; subst to r0; clear Hx.
     match goal with |- context [AE _ _ ?p _ _ _] => set (pli := p) in * end.
     exists pli, plt, (commit s). split; auto. split; [unfold len in Lt; lia|]. split.
     + rewrite firstn_all. auto.
